@@ -22,7 +22,7 @@ type C08Rule struct {
 }
 
 type C08Op struct {
-	Kind   string    `json:"kind"` // full | incr | remove | refull (the byte-identical text of the last full build again)
+	Kind   string    `json:"kind"` // full | incr | remove | refull / reincr (the byte-identical text of the last full / incremental build again)
 	Rules  []C08Rule `json:"rules,omitempty"`
 	Remove []string  `json:"remove,omitempty"`
 }
@@ -67,7 +67,7 @@ func genC08Rules(t *rapid.T, pfx string, step int) []C08Rule {
 func init() {
 	register(&Prop{
 		ID:   "C08",
-		Rule: "operation histories of up to 25 steps on one RuleBuilder: BuildRuleFromString / BuildRuleWithIncremental with 1-5 rules per call over a universe of 8 names and saliences -1..3 (new names, same name same salience, same name changed salience, ties, several rules per call) and RemoveRules with 1-4 names (present, absent, empty list); every rule body reports its compile-time @sal/@desc and returns a tag fresh per (name, build); oracle = model map name -> (salience, description, tag): after every step the sort model must run exactly the model's rules, each once, in non-increasing order of the current saliences, returning the current tags and reporting the current salience/description, IsExist over the whole universe must agree, and the empty set must report 'no rule' without running anything. Non-trivial: the history changes the salience of an existing rule and later performs another incremental build, or >= 2 incremental builds touch one tie group; distinct by case hash",
+		Rule: "operation histories of up to 25 steps on one RuleBuilder: BuildRuleFromString / BuildRuleWithIncremental with 1-5 rules per call over a universe of 8 names and saliences -1..3 (new names, same name same salience, same name changed salience, ties, several rules per call) and RemoveRules with 1-4 names (present, absent, empty list), re-submission of the byte-identical text of the last full or last incremental build; every rule body reports its compile-time @sal/@desc and returns a tag fresh per (name, build); oracle = model map name -> (salience, description, tag): after every step the sort model must run exactly the model's rules, each once, in non-increasing order of the current saliences, returning the current tags and reporting the current salience/description, IsExist over the whole universe must agree, and the empty set must report 'no rule' without running anything. Non-trivial: the history changes the salience of an existing rule and later performs another incremental build, or >= 2 incremental builds touch one tie group; distinct by case hash",
 		New:  func() interface{} { return &C08Case{} },
 		Gen: func(t *rapid.T) interface{} {
 			c := &C08Case{}
@@ -81,7 +81,11 @@ func init() {
 				case k <= 1 || i == 0:
 					c.Ops = append(c.Ops, C08Op{Kind: "full", Rules: genC08Rules(t, pfx, i)})
 				case k == 2:
-					c.Ops = append(c.Ops, C08Op{Kind: "refull"})
+					if pct(t, pfx+"re_incr", 60) {
+						c.Ops = append(c.Ops, C08Op{Kind: "reincr"})
+					} else {
+						c.Ops = append(c.Ops, C08Op{Kind: "refull"})
+					}
 				case k <= 6:
 					c.Ops = append(c.Ops, C08Op{Kind: "incr", Rules: genC08Rules(t, pfx, i)})
 				default:
@@ -105,11 +109,16 @@ func init() {
 			var lastFullText string
 			var lastFullRules []C08Rule
 			var lastFullTags map[string]int64
+			var lastIncrText string
+			var lastIncrRules []C08Rule
+			var lastIncrTags map[string]int64
+			changedSinceIncr := false
 			for step, op := range c.Ops {
 				var err error
 				var pan string
 				switch op.Kind {
 				case "refull":
+					changedSinceIncr = true
 					x.Class("identical-full-text-resubmitted")
 					text, tags := lastFullText, lastFullTags
 					err, pan = guard(func() error { return rb.BuildRuleFromString(text) })
@@ -119,7 +128,24 @@ func init() {
 							model[r.Name] = c08Entry{r.Sal, r.Desc, tags[r.Name]}
 						}
 					}
+				case "reincr":
+					if lastIncrText == "" {
+						// no incremental build yet: nothing to resubmit, the step is a no-op
+						continue
+					}
+					x.Class("identical-incr-text-resubmitted")
+					if changedSinceIncr {
+						x.Class("identical-incr-text-after-other-change")
+					}
+					text, tags := lastIncrText, lastIncrTags
+					err, pan = guard(func() error { return rb.BuildRuleWithIncremental(text) })
+					if err == nil {
+						for _, r := range lastIncrRules {
+							model[r.Name] = c08Entry{r.Sal, r.Desc, tags[r.Name]}
+						}
+					}
 				case "full":
+					changedSinceIncr = true
 					text, tags := c08Text(op.Rules, int64(step*100))
 					lastFullText, lastFullRules, lastFullTags = text, op.Rules, tags
 					err, pan = guard(func() error { return rb.BuildRuleFromString(text) })
@@ -131,6 +157,8 @@ func init() {
 					}
 				case "incr":
 					text, tags := c08Text(op.Rules, int64(step*100))
+					lastIncrText, lastIncrRules, lastIncrTags = text, op.Rules, tags
+					changedSinceIncr = false
 					for _, r := range op.Rules {
 						old, ok := model[r.Name]
 						switch {
@@ -166,6 +194,7 @@ func init() {
 						}
 					}
 				case "remove":
+					changedSinceIncr = true
 					err, pan = guard(func() error { return rb.RemoveRules(op.Remove) })
 					if len(op.Remove) == 0 {
 						x.Class("remove-empty-list")
